@@ -325,13 +325,19 @@ class Interp:
         """branch on a symbolic condition"""
         if isinstance(cond, bool):
             return cond
-        cond = z3.simplify(cond)
-        if z3.is_true(cond):
+        simp = z3.simplify(cond)
+        if z3.is_true(simp):
             return True
-        if z3.is_false(cond):
+        if z3.is_false(simp):
             return False
+        if not getattr(self, 'keep_raw_conditions', False):
+            cond = simp
         if self.dpos < len(self.decisions):
             choice = self.decisions[self.dpos]
+        elif getattr(self, 'oracle', None) is not None:
+            # a contract drives the path (e.g. by evaluating each condition on a concrete witness): the branch is recorded like any other decision
+            choice = bool(self.oracle(cond))
+            self.decisions.append(choice)
         else:
             # first visit: prefer True if feasible
             if self.feasible(cond):
